@@ -63,18 +63,8 @@ theorem betweenRows_err {number : Bool} :
     exact .bind exb_betweenRow fun _ =>
       .bind (betweenRows_err n xs ys zs (by simpa using hx) (by simpa using hy) (by simpa using hz)) fun _ => .ok _
 
-theorem exb_inValues {number : Bool} {left : Value} : ∀ (vals : List Value), ExBenign (inValues number left vals)
-  | [] => .ok _
-  | v :: vs => by
-    unfold inValues
-    intro e h
-    cases hc : compareBy number left v .eq with
-    | error e0 => rw [hc] at h; cases h; exact exb_compareBy _ hc
-    | ok b =>
-      rw [hc] at h
-      cases b
-      · exact exb_inValues vs e h
-      · cases h
+theorem exb_inValues {number : Bool} {left : Value} (vals : List Value) : ExBenign (inValues number left vals) :=
+  .ok _
 
 theorem inCallRows_err {number : Bool} :
     ∀ (n : Nat) (xs ys : List Value), xs.length = n → ys.length = n → ExBenign (inCallRows number n xs ys)
